@@ -9,4 +9,5 @@ CONSTANTS
 INVARIANT NotPenalisesInterior
 INVARIANT NotNeverBoth
 INVARIANT MemberZeroIffAccepts
+INVARIANT Homogeneous
 INVARIANT Emit
